@@ -8,11 +8,11 @@ def unhex(s):
 
 
 class Pass:
-    __slots__ = ('i', 'op', 'now', 'delivered', 'reads', 'writes', 'sys', 'clients', 'args', 'devs', 'interest', 'polltmo', 'tmo', 'died', 'raw', 'teardown', 'heap')
+    __slots__ = ('i', 'op', 'now', 'delivered', 'reads', 'writes', 'sys', 'clients', 'args', 'devs', 'interest', 'polltmo', 'tmo', 'died', 'raw', 'teardown', 'heap', 'hup', 'polltmos')
 
     def __init__(self):
         self.delivered = {}; self.reads = {}; self.writes = {}; self.sys = []; self.clients = {}; self.args = {}
-        self.devs = {}; self.interest = {}; self.polltmo = None; self.tmo = None; self.died = False; self.teardown = False; self.heap = None
+        self.devs = {}; self.interest = {}; self.polltmo = None; self.tmo = None; self.died = False; self.teardown = False; self.heap = None; self.hup = None; self.polltmos = []
 
 
 def parse(sim):
@@ -23,6 +23,7 @@ def parse(sim):
         p.now = int(t[1])
         if t[0] == "P":
             for part in t[5:]:
+                if part.startswith("H"): p.hup = int(part[1:]); continue
                 fd, rev, rk, hexs, cap = part.split(":")
                 p.delivered[int(fd)] = dict(rev=int(rev), rk=int(rk), data=unhex(hexs), cap=int(cap))
         for l in res:
@@ -52,7 +53,7 @@ def parse(sim):
             elif w[0] == "I" and w[1] == "heap": p.heap = int(w[2])
             elif w[0] == "I" and w[1] == "dev" and w[3] == "acts": p.devs.setdefault(int(w[2]), {})['ids'] = [(x.split(':')[0], None if int(x.split(':')[1]) == 0 else int(x.split(':')[1]) - 1000000000) for x in w[4:]]   # the harness clock starts at 1000 s
             elif w[0] == "O" and w[1] == "interest": p.interest[int(w[2])] = int(w[3])
-            elif w[0] == "O" and w[1] == "polltmo": p.polltmo = int(w[2])
+            elif w[0] == "O" and w[1] == "polltmo": p.polltmo = int(w[2]); p.polltmos.append(int(w[2]))
             elif w[0] == "O" and w[1] == "tmo": p.tmo = None if w[2] == "none" else int(w[2])
         out.append(p)
     td = sim.get('teardown')
